@@ -276,7 +276,7 @@ Definition mx_set_if_truth (v : mxv) : option bool :=
        | MxBool b => Some b
        | MxNum z => Some (negb (Z.eqb z 0))
        | MxStr [] => Some false
-       | MxStr s' => match mx_parse_int s' with Some z => Some (negb (Z.eqb z 0)) | None => None end
+       | MxStr s' => mx_parse_truth s'
        | _ => None
        end.
 
